@@ -528,8 +528,8 @@ PROPS = {
     },
     "C03": {
         "lean_modules": ["Dbg.Props.C03"],
-        "theorems": ["Graph.C03_prune_exact", "Graph.C03_valid_exts_exact", "Graph.C03_edges_justified", "Graph.C03_walk_sequence", "Graph.C03_maxPath_walk", "Graph.C03_maxPath_sequence", "Graph.edge_overlap", "Graph.findLink_sound", "Graph.searchKmer_sound", "Graph.searchKmer_complete", "Graph.findLink_exts_irrelevant"],
-        "partial": ["edges_symmetric and adjacency set = (K+1)-mers of the reads (edges_eq_observed): executable predicates evaluated on the crate's answers for graphs built from reads; they need the node-level reciprocity invariant of compressed graphs, not yet carried from C01/C02 to the finished graph; max_path_beam is not modelled"],
+        "theorems": ["Graph.C03_edges_symmetric", "Graph.C03_ginv_decidable", "Graph.C03_prune_exact", "Graph.C03_valid_exts_exact", "Graph.C03_edges_justified", "Graph.C03_walk_sequence", "Graph.C03_maxPath_walk", "Graph.C03_maxPath_sequence", "Graph.edge_overlap", "Graph.findLink_sound", "Graph.searchKmer_sound", "Graph.searchKmer_complete", "Graph.findLink_exts_irrelevant"],
+        "partial": ["GInv (node-level invariant: unique ends, reciprocal extensions) is a hypothesis of C03_edges_symmetric: it is decidable (ginvOK, proved sound) and evaluated on every graph the crate builds in the pipeline requests, but not yet derived from C01/C02 for the output of compress_kmers; adjacency set = (K+1)-mers of the reads (edges_eq_observed) is an executable predicate; max_path_beam is not modelled"],
         "n_quick": 3000, "n_thorough": 200000,
         "nontrivial": lambda toks, impl: impl != "panic" and (toks[1] != "graph" or toks[4].count(",") >= 1), "tags": _c03_tags,
         "rule": "requests: `graph K stranded nodes probes valid scores walk` on graphs produced by the real pipeline (filter -> prune -> compress -> "
@@ -572,8 +572,8 @@ PROPS = {
     },
     "C20": {
         "lean_modules": ["Dbg.Props.C20"],
-        "theorems": ["Export.gfa_link_sound", "Export.gfa_links_complete", "Export.gfa_segment", "Export.mem_allLinks"],
-        "partial": ["'each adjacency exactly once unless it touches a palindromic single-k-mer node' (multiplicity), JSON well-formedness (json_render) and serde round trips: decided by execution (GFA records re-read into port pairs and counted; JSON parsed by serde_json; round trips compared)"],
+        "theorems": ["Export.gfa_no_duplicate", "Export.gfa_links_complete_ginv", "Export.edges_ports_nodup", "Export.gfa_link_sound", "Export.gfa_links_complete", "Export.gfa_segment", "Export.mem_allLinks"],
+        "partial": ["JSON well-formedness (json_render) and serde round trips: decided by execution (JSON text compared verbatim with the model and parsed by serde_json; round trips compared). gfa_links_complete_ginv assumes the node-level invariant GInv (decidable, evaluated on pipeline graphs in C03)"],
         "n_quick": 3000, "n_thorough": 200000,
         "nontrivial": lambda toks, impl: impl != "panic" and (toks[1] != "export" or toks[4].count(",") >= 1), "tags": _c20_tags,
         "shrink": _c20_shrink,
